@@ -34,6 +34,8 @@ CLAIMED = {
             "(1) bin_count 0..2 (quick) / 0..3, values within 3 (quick) / 4 widths, 1..3 values; (2) widths 0.5, 1.0, 0.25 with |v| <= 8 widths (quick); 9 widths incl. 0.1, 0.2, 0.3, 1e-3 with |v| <= 30 widths (thorough)", "DESIGN.md 5/C04"),
     "C07": ("Bounded symbolic model checking of the binning classes and factories: acceptance of ARBITRARY symbolic edge arrays iff strictly rising and non-overlapping; agreement of bins / numpy_bins / numpy_bins_with_mask / bin_count / first,last edge / is_consecutive / is_regular / copy / == / slicing / as_static / as_fixed_width for Static (consecutive, gapped), Numpy, FixedWidth, Exponential binnings with symbolic parameters; numpy_binning = start + i*(stop-start)/k covering the data; fixed_width / integer binnings on the grid, covering min and max minimally, integer bins centred on integers; quantile edges = order statistics, ties refused; pretty widths in {1,2,2.5,5}*10^k nearest in log scale (log10/ln uninterpreted with order axioms); sqrt / sturges / rice / default bin-count rules for all n in [1,1024]; calculate_1d_bins / calculate_nd_bins dispatch and refusals.",
             "M<=3 bins, N<=2 (quick) / N<=3 data values, |data| <= 50, widths in [4,64]; astropy-based methods, doane, exponential_binning(data) and bit-exact agreement with numpy.linspace are outside", "DESIGN.md 5/C07"),
+    "C15": ("Bounded symbolic model checking of TransformedHistogramMixin (transform, find_bin, fill, fill_n, projection, _validate_source_dimension), every _transform_correct_dimension, the seven facade functions and extract_transformed_data: transform(p) for a symbolic Cartesian point satisfies r >= 0, r^2 = x^2+y^2(+z^2), phi = atan2(y,x) folded into [0,2pi], theta = atan2(hypot(x,y), z) in [0,pi], z unchanged (hypot exact, atan2 uninterpreted with sound axioms, so swapped or missing arguments are satisfiable differences); facade construction, fill, fill_n, find_bin and transformed=True entry put a symbolic point into the same, reference bin for symbolic bins; projections have the special class, marginal contents and surface radius; wrong source dimensionality refused.",
+            "one point (and a 2-row array for transform), 2 bins per axis; witnesses are replayed on points lying on a coordinate axis (where every transcendental value is fixed by the axioms and equals numpy's); numeric accuracy of arctan2/hypot and signed zeros are outside", "DESIGN.md 5/C15"),
 }
 
 REASONS_NOT_YET = "check not built yet (work in progress; see DESIGN.md section 8 build order)"
